@@ -1,6 +1,6 @@
 /-
-  `get_if_statement_conditions` (WP3): with `fRemoveWhitespace` the region is a slice exactly when
-  something other than whitespace / comments stands between `if` and `then`.
+  `get_if_statement_conditions` (WP3): every region is a slice; with `fRemoveWhitespace` a condition
+  that holds nothing but whitespace / comments gets no region (repaired helpers, see Extract3.lean).
 -/
 import VsgModel.Engine.Extract3
 import VsgProofs.Lemmas.Extract2
@@ -34,72 +34,66 @@ theorem sliceAt_drop (f : List α) (p k : Nat) (l : List α) (h : SliceAt f p l)
 theorem sliceAt_pySlice (f : List α) (s : Nat) (b : Int) (h : s ≤ f.length) : SliceAt f s (pySlice f (s : Int) b) :=
   pySlice_nat_exact f s b h
 
-theorem removeTrailing_slice (V : View α) (P : PCls) (f : List α) (p : Nat) (l : List α) (hs : SliceAt f p l)
-    (hx : ∃ x ∈ removeTrailing V P l, isWsOrComment V P x = false) : SliceAt f p (removeTrailing V P l) := by
-  unfold removeTrailing at hx ⊢
+theorem removeTrailing_slice (V : View α) (P : PCls) (f : List α) (p : Nat) (l : List α) (hs : SliceAt f p l) :
+    SliceAt f p (removeTrailing V P l) := by
+  unfold removeTrailing
   cases hf : l.reverse.findIdx? (fun t => !isWsOrComment V P t) with
   | some k =>
     simp only
     rw [List.drop_reverse, List.reverse_reverse]
     exact sliceAt_take f p _ l hs
   | none =>
-    simp only [hf] at hx
-    obtain ⟨x, hxm, hxw⟩ := hx
-    rw [List.findIdx?_eq_none_iff] at hf
-    have := hf x hxm
-    simp [hxw] at this
+    simp only
+    exact sliceAt_nil f p (by have := hs.1; omega)
 
-theorem ifCore (V : View α) (P : PCls) (f : List α) (s : Nat) (tmp0 : List α) (rm : Bool) (line : Nat) (st : Int × List α)
-    (hst : st = if rm then ((removeLeading V P s tmp0).1, removeTrailing V P (removeLeading V P s tmp0).2)
-        else ((s : Int) + 1, tmp0))
+/-- both helpers together: what is left of the slice `sl` at `s` is the slice at `s + k`, and the
+    index handed back is `i + k + 1` (the callers pass `i = s - 1` or `i = s`) -/
+theorem trimmed_slice (V : View α) (P : PCls) (f : List α) (s : Nat) (sl : List α) (i : Int) (hsl : SliceAt f s sl) :
+    ∃ k : Nat, k ≤ sl.length ∧ (removeLeading V P i sl).1 = i + (k : Int) + 1 ∧
+      SliceAt f (s + k) (removeTrailing V P (removeLeading V P i sl).2) := by
+  unfold removeLeading
+  cases hf : sl.findIdx? (fun t => !isWsOrComment V P t) with
+  | some k =>
+    simp only
+    have hk : k < sl.length := (List.findIdx?_eq_some_iff_findIdx_eq.mp hf).1
+    exact ⟨k, Nat.le_of_lt hk, rfl, removeTrailing_slice V P f _ _ (sliceAt_drop f s k sl hsl (Nat.le_of_lt hk))⟩
+  | none =>
+    simp only
+    exact ⟨sl.length, Nat.le_refl _, rfl, removeTrailing_slice V P f _ _ (sliceAt_nil f _ hsl.1)⟩
+
+theorem ifRegion_exact (V : View α) (P : PCls) (f : List α) (rm : Bool) (s : Nat) (tmp0 : List α) (t : Toi α)
     (hsl : SliceAt f (s + 1) tmp0)
-    (hg : rm = false ∨ ∃ x ∈ st.2, isWsOrComment V P x = false) :
-    Toi.Exact f ({ start := some st.1, line := line, toks := st.2 } : Toi α) := by
-  subst hst
+    (h : ifRegion V P (processTokens V.uid f) rm s tmp0 = .ok (some t)) :
+    (∃ p : Int, t.start = some p ∧ t.line = lineNo V.uid f p.toNat) ∧ t.Exact f ∧ (rm = true → t.toks ≠ []) := by
+  unfold ifRegion at h
   cases rm with
   | false =>
-    simp only [Bool.false_eq_true, if_false]
-    exact exact_of_sliceAt f _ (s + 1) (by simp <;> omega) hsl
+    simp only [Bool.false_eq_true, if_false, Bool.false_and, bind_ok, pure_ok, Option.some.injEq] at h
+    obtain ⟨line, hl, rfl⟩ := h
+    exact ⟨⟨_, rfl, lineOf_fresh V.uid f _ line hl⟩,
+      exact_of_sliceAt f _ (s + 1) (by simp <;> omega) hsl, by intro h; cases h⟩
   | true =>
-    simp only [if_true] at hg ⊢
-    rcases hg with hg | hg
-    · cases hg
-    · unfold removeLeading at hg ⊢
-      cases hf : tmp0.findIdx? (fun t => !isWsOrComment V P t) with
-      | some k =>
-        simp only [hf] at hg ⊢
-        have hk : k < tmp0.length := by
-          have := List.findIdx?_eq_some_iff_findIdx_eq.mp hf
-          exact this.1
-        have hd := sliceAt_drop f (s + 1) k tmp0 hsl (Nat.le_of_lt hk)
-        refine exact_of_sliceAt f _ (s + 1 + k) (by simp <;> omega) ?_
-        exact removeTrailing_slice V P f _ _ hd hg
-      | none =>
-        simp only [hf] at hg
-        exfalso
-        obtain ⟨x, hxm, hxw⟩ := hg
-        rw [List.findIdx?_eq_none_iff] at hf
-        have hall : ∀ y ∈ tmp0, isWsOrComment V P y = true := by
-          intro y hy; have := hf y hy; simpa using this
-        unfold removeTrailing at hxm
-        cases hf2 : tmp0.reverse.findIdx? (fun t => !isWsOrComment V P t) with
-        | some k' =>
-          simp only [hf2] at hxm
-          rw [List.drop_reverse, List.reverse_reverse] at hxm
-          have := hall x (List.mem_of_mem_take hxm)
-          rw [this] at hxw; cases hxw
-        | none =>
-          simp only [hf2] at hxm
-          have := hall x (List.mem_reverse.mp hxm)
-          rw [this] at hxw; cases hxw
+    simp only [if_true, Bool.true_and] at h
+    split at h
+    · simp [pure, Except.pure] at h
+    · rename_i hne
+      simp only [bind_ok, pure_ok, Option.some.injEq] at h
+      obtain ⟨line, hl, rfl⟩ := h
+      obtain ⟨k, _, h1, h2⟩ := trimmed_slice V P f (s + 1) tmp0 (s : Int) hsl
+      refine ⟨⟨_, rfl, lineOf_fresh V.uid f _ line hl⟩,
+        exact_of_sliceAt f _ (s + 1 + k) (by simp only [h1]; congr 1; omega) h2, ?_⟩
+      intro _ he
+      simp only at he
+      rw [he] at hne
+      simp at hne
 
-theorem ifConditions_exact_partial (V : View α) (P : PCls) (f : List α) (ifK elsifK thenK : Option Key) (rm : Bool)
+theorem ifConditions_exact (V : View α) (P : PCls) (f : List α) (ifK elsifK thenK : Option Key) (rm : Bool)
     (r : List (Toi α)) (h : ifConditions V P f (processTokens V.uid f) ifK elsifK thenK rm = .ok r) :
-    ∀ t ∈ r, (∃ s : Int, t.start = some s ∧ t.line = lineNo V.uid f s.toNat) ∧
-      ((rm = false ∨ ∃ x ∈ t.toks, isWsOrComment V P x = false) → t.Exact f) := by
+    ∀ t ∈ r, (∃ s : Int, t.start = some s ∧ t.line = lineNo V.uid f s.toNat) ∧ t.Exact f ∧
+      (rm = true → t.toks ≠ []) := by
   intro t ht
   unfold ifConditions at h
-  obtain ⟨s, hs, hb⟩ := mem_mapE _ _ _ h t ht
+  obtain ⟨s, hs, hb⟩ := mem_filterMapE _ _ _ h t ht
   have hlt : s < f.length := by
     unfold sortNat at hs
     rw [List.mem_mergeSort] at hs
@@ -107,18 +101,7 @@ theorem ifConditions_exact_partial (V : View α) (P : PCls) (f : List α) (ifK e
     · exact fresh_get_lt V.uid f ifK s h'
     · exact fresh_get_lt V.uid f elsifK s h'
   have e1 : ((s : Int) + 1) = ((s + 1 : Nat) : Int) := by omega
-  cases hta : (processTokens V.uid f).tokAfter thenK (s : Int) with
-  | none =>
-    simp only [hta, bind_ok, pure_ok] at hb
-    obtain ⟨line, hl, rfl⟩ := hb
-    refine ⟨⟨_, rfl, lineOf_fresh V.uid f _ line hl⟩, ?_⟩
-    intro hg
-    exact ifCore V P f s _ rm line _ rfl (by rw [e1]; exact sliceAt_pySlice f (s + 1) _ (by omega)) hg
-  | some e =>
-    simp only [hta, bind_ok, pure_ok] at hb
-    obtain ⟨line, hl, rfl⟩ := hb
-    refine ⟨⟨_, rfl, lineOf_fresh V.uid f _ line hl⟩, ?_⟩
-    intro hg
-    exact ifCore V P f s _ rm line _ rfl (by rw [e1]; exact sliceAt_pySlice f (s + 1) _ (by omega)) hg
+  refine ifRegion_exact V P f rm s _ t ?_ hb
+  split <;> (rw [e1]; exact sliceAt_pySlice f (s + 1) _ (by omega))
 
 end Vsgm.TM.X.Lemmas
